@@ -270,7 +270,15 @@ def run(ctx):
         k = const_of(Tde.operand(t_["args"][1]))
         oke = try_ok_edges(de, Tde, lambda c, bb_=bb_: c[1] == "posix::dup2" and c[3] == bb_)
         mine = [mb for mb, ms in marks if ms == src and oke and dominated_by_edges(de, mb, oke)]
-        ok = bool(mine) and bool(oke) and all(any(dominated_by_blocks(de, r_, [mb], start=oke[0][1]) for mb in mine) or not (r_ in de.reachable(oke[0][1])) for r_ in _ok_returns(de) + execs)
+        # the marking may be skipped only for a source that is itself one of the descriptors 0..2 (the false side of `fd > 2`)
+        is_src_fd = lambda x: M.noref(x)[0] == "call" and "as_raw_fd" in M.noref(x)[1] and stream_of(x) == src
+        low_skip = _neg_edges(de, Tde, int_gt_edges(de, Tde, is_src_fd, 2))
+        def passes_mark_or_low(r_):
+            if not (r_ in de.reachable(oke[0][1])):
+                return True
+            blocked = de.reachable(oke[0][1], removed_blocks=set(mine), removed_edges=set(low_skip))
+            return r_ not in blocked
+        ok = bool(mine) and bool(oke) and all(passes_mark_or_low(r_) for r_ in _ok_returns(de) + execs)
         ctx.ob("R08.5", "dup2->%s.source-closed-on-exec" % k, ok, de.loc(bb_),
                "after dup2(src, %s) the source descriptor must be marked close-on-exec (set_inheritable(&src, false), possibly skipping descriptors 0..2) before the "
                "program is executed: a shared file (pipeline stderr sink, RcFile) is not closed by dropping the child's reference, so the new program would hold "
